@@ -20,6 +20,7 @@ import (
 // analysed by a child process. It never influences the verdict on /repo: the
 // result is reported in the evidence, and a variant that is missed, or a
 // benign one that raises an alarm, is printed as SELF-VALIDATION-REGRESSION.
+// The refactorings under benign/ are run for every property.
 func selfValidate(prop, verifDir, repoDir string) map[string]any {
 	type variant struct {
 		name, patch, expect string
@@ -67,6 +68,12 @@ func selfValidate(prop, verifDir, repoDir string) map[string]any {
 		if mine {
 			vs = append(vs, variant{"seeded/" + id, p, "any"})
 		}
+	}
+	// independent behaviour-preserving refactorings: every check must stay silent on every one
+	bs, _ := filepath.Glob(filepath.Join(verifDir, "benign", "*", "patch.diff"))
+	sort.Strings(bs)
+	for _, p := range bs {
+		vs = append(vs, variant{"benign/" + filepath.Base(filepath.Dir(p)), p, "none"})
 	}
 	exe, err := os.Executable()
 	if err != nil || len(vs) == 0 {
